@@ -440,3 +440,40 @@ def ladder_sweep(kinds, windows=(None, 3, 24, 300), sizes=LADDER):
         yield ladder_case(n, kind, w, variant=k)
     return ('size ladder %s x %s x windows %s' % (list(sizes), list(kinds), list(windows)),
             len(combos), chunk)
+
+
+# ---------------------------------------------------------------- the time ladder
+TIME_LADDER = [61, 90, 121, 1001, 3601, 86401]
+
+
+def time_ladder_sweep():
+    """timeouts just above 1 min / 2 min / 1000 s / 1 h / 1 day, a job that finishes 10 s
+    before or after, verbose on or off, at the top or nested (thresholds expressed in seconds
+    sit at such values)"""
+    combos = [(t, late, verbose, nested) for t in TIME_LADDER for late in (False, True)
+              for verbose in (False, True) for nested in (False, True)]
+
+    def job(ident, d, **kw):
+        out = dict(kind='job', id=ident, cls='abstract', d=d, k=0, outcome='return',
+                   critical=False, forever=False, c=0, sd=0, hkey=1, tkey=0)
+        out.update(kw)
+        return out
+
+    def sched(ident, members, **kw):
+        out = dict(kind='sched', id=ident, cls='nestable', window=None, timeout=None, sdt=1,
+                   critical=False, forever=False, verbose=False, hkey=0, tkey=0,
+                   members=members, edges=[], order=list(range(len(members))), build='ctor',
+                   wild=False)
+        out.update(kw)
+        return out
+
+    def chunk(k):
+        t, late, verbose, nested = combos[k]
+        d = t + 10 if late else t - 10
+        inner = sched('s1' if nested else 's0', [job('j1', d), job('j2', 5)], timeout=t,
+                      verbose=verbose, critical=bool(k % 3 == 0))
+        if nested:
+            inner = sched('s0', [inner, job('j3', 7)], verbose=verbose)
+        yield inner
+    return ('time ladder: timeout in %s, job ending 10 s before / after, verbose, nesting'
+            % TIME_LADDER, len(combos), chunk)
